@@ -8,6 +8,11 @@ NOTE_COMMON = ("Trusted base: go/packages + go/types + go/ssa of golang.org/x/to
                "so a large refactoring can raise an alarm although behaviour is preserved.")
 
 claimed = {
+ "C01": dict(
+   text="Decides, for every function reachable (VTA call graph) from the reader entry points and every registered operator, that each instruction that can panic carries a discharged obligation: index/slice bounds (Go compiler prove pass, else the fact engine: dominating conditions, overflow-checked linear terms, memory epochs, induction variables, phi case splits, division and != facts, library contracts, Fourier-Motzkin over big rationals; else a reviewed entry whose required guard facts must still dominate the site), allocation sizes bounded, unchecked type assertions justified by content invariants, no nil-map write (boxed-Dict invariant), guarded nil dereferences, non-zero divisors, no explicit panic, no value-formatting of possibly cyclic operands; every call-graph cycle passes a checked gate and every loop is classified (range, counted, input-consuming, budgeted, or reviewed). Does not decide termination as such, total memory growth, nor standard-library internals.",
+   technique="static analysis: per-instruction panic obligations over go/ssa discharged by the compiler's bounds-check log and a custom linear-arithmetic fact engine (Fourier-Motzkin), call-graph SCC gating, CFG loop classification",
+   ref="DESIGN.md §5 C01",
+   note=NOTE_COMMON + " Additional trusted base for C01: the Go compiler's prove pass, the library-contract table, and /verif/reviewed/C01.json (20 hand-reviewed obligations, each with its reason; an entry re-opens when a guard fact it requires no longer dominates the site). Assumes readers return 0 <= n <= len(p), make progress, and do not call back into the reader object that wraps them."),
  "C08": dict(
    text="Decides the framing, cipher and template-structure clauses of the Type 1 writer: PFB event sequence with little-endian lengths taken from the filled buffer; eexec and charstring encryption constants and ciphertext-feedback data flow; four lead bytes whose first cipher byte (evaluated as a constant) is neither white space nor hexadecimal; lead-byte search acceptance sets; no /lenIV; required dictionary keys; RD/ND/NP definitions before use; length-prefixed binary strings; eexec/closefile/trailer switching under one condition; explicit encoding lists every entry but .notdef; PDF lengths read from one byte counter at the right points; no narrowing below 32 bits on the way to the number encoder. Decodability by an independent implementation is not decided.",
    technique="static analysis: parsed font template (text/template/parse, not executed), AST event-sequence matching of the PFB branch, canonical symbolic terms for the ciphers, byte-domain evaluation, go/ssa dominance for the length counters",
